@@ -750,6 +750,136 @@ def check(ctx):
             if abs(pl[0] - exp) > 2e-6 * max(1.0, k):
                 ctx.fail(f"bs_{fn} called positionally differs from the numerically integrated expected payoff", case | {"element": 0},
                          key=f"bs_{fn}:positional:expectation", detail={"impl": pl[0], "integral": exp})
+    # (f) underliers BUILT with non-default attributes that must not enter the zero-rate risk-neutral price (round 5): a physical drift
+    #   mu != 0 (BrownianStock, MertonJumpStock, KouJumpStock, a user-defined BrownianStock subclass whose DEFAULTS are a drifted, costly,
+    #   weekly-stepped stock), non-default transaction cost, time step and jump parameters, HestonStock with non-default kappa / theta /
+    #   sigma / rho.  The underlier is really simulated (torch seed drawn from g), the module is built from the derivative both ways and
+    #   priced from its state, without inputs and with a proper subset given explicitly: the quote must be the functional form at the
+    #   SIMULATED state (spot, running maximum, remaining steps * dt, the underlier's volatility) and the derivative's strike / flag —
+    #   only these enter the expectation — and, at the first step, the numerically integrated expected payoff; every call is also sent
+    #   to the model of the resolution layer (op bs_module: the model's market has no drift, cost or jump parameters at all).
+    #   The (option type x drifted primary) corpus runs on every tier and for every seed; every scenario has mu != 0.
+    class DriftStock(pin.BrownianStock):
+        """a user-defined primary: BrownianStock with other defaults"""
+
+        def __init__(self, sigma=0.3, mu=0.25, cost=1e-3, dt=1 / 52, dtype=None, device=None):
+            super().__init__(sigma=sigma, mu=mu, cost=cost, dt=dt, dtype=dtype, device=device)
+
+    DRIFTED = ["BrownianStock", "MertonJumpStock", "KouJumpStock", "DriftStock"]
+    scen_f = [(o_, p_) for o_ in OPTION_TYPES for p_ in DRIFTED]
+    scen_f += [(g.choice(OPTION_TYPES), g.choice(DRIFTED + ["HestonStock", "DriftStock(defaults)"])) for _ in range(4 if q_ else 80)]
+    n_pd_or = 1 if q_ else 6
+    for i_f, (option, primary) in enumerate(scen_f):
+        pd = option in ("LookbackOption", "AmericanBinaryOption")
+        call = True if pd else g.chance(0.5)
+        K = g.choice([0.9, 1.0, 1.1, 1.25, round(g.r.uniform(0.8, 1.3), 2)])
+        mu = g.choice([0.15, -0.4, 0.05, -0.1, 0.5, 1.0, -1.0, round(g.r.uniform(0.02, 0.6), 3), -round(g.r.uniform(0.02, 0.6), 3)])
+        sigma = g.choice([0.1, 0.2, 0.3, 0.5])
+        cost = g.choice([1e-4, 1e-3, 0.01])
+        dt = g.choice([1 / 50, 1 / 100, 1 / 365, 0.01, 1 / 52, 1 / 12 if primary in ("BrownianStock", "DriftStock") else 1 / 64])
+        steps = g.choice([3, 4, 6])
+        n_paths = g.choice([1, 2, 3])
+        attrs = {"sigma": sigma, "mu": mu, "cost": cost, "dt": dt}
+        if primary == "MertonJumpStock":
+            attrs |= {"jump_per_year": g.choice([20.0, 68, 40.0]), "jump_mean": g.choice([-0.02, 0.0, 0.03]), "jump_std": g.choice([0.01, 0.03])}
+        elif primary == "KouJumpStock":
+            attrs |= {"jump_per_year": g.choice([20.0, 68.0, 40.0]), "jump_mean_up": g.choice([0.02, 0.04]), "jump_mean_down": g.choice([0.05, 0.03]),
+                      "jump_up_prob": g.choice([0.3, 0.5, 0.7])}
+        elif primary == "HestonStock":
+            attrs = {"kappa": g.choice([0.5, 2.0, 3.0]), "theta": g.choice([0.02, 0.09, 0.16]), "sigma": g.choice([0.1, 0.3]),
+                     "rho": g.choice([-0.3, 0.0, 0.5]), "cost": cost, "dt": dt}
+        elif primary == "DriftStock(defaults)":
+            attrs = {}
+        cls_u = DriftStock if primary.startswith("DriftStock") else getattr(pin, primary)
+        u = cls_u(dtype=torch.float64, **attrs)
+        d = getattr(pin, option)(u, call=call, strike=K, maturity=steps * u.dt)
+        drift = float(getattr(u, "mu", 0.0))
+        for _try in range(8):       # keep the simulated state inside the property's box (log-moneyness in [-1,1], volatility > 0)
+            tseed = g.randint(0, 2 ** 31 - 1)
+            torch.manual_seed(tseed)
+            d.simulate(n_paths=n_paths)
+            spot = u.spot.detach().clone()
+            vol = u.variance.detach().clamp(min=0.0).sqrt() if primary == "HestonStock" else torch.full_like(spot, float(u.sigma))
+            if bool(((spot / K).log().abs() <= 1.0).all()) and bool((vol > 0).all()) and bool((vol <= 2.0).all()):
+                break
+        else:
+            raise InternalError(f"scenario construction: no simulated state of {primary} {attrs} inside the box")
+        N, T = spot.shape
+        state = derivative_state(torch, spot, vol, K, float(u.dt))
+        valid = (state["time_to_maturity"] > 0) & (state["volatility"] > 0)
+        how_tie = ("BlackScholes", "from_derivative")[i_f % 2]
+        case0 = {"option": option, "primary": primary, "attributes": attrs, "mu": drift, "call": call, "strike": K, "steps": steps,
+                 "n_paths": n_paths, "torch_seed": tseed, "spot": spot.tolist(), "volatility": vol[:, 0].tolist() if primary != "HestonStock" else vol.tolist()}
+        ctx.stats[f"attributes:{primary}"] += 1
+        ctx.stats["attributes:mu!=0" if drift != 0 else "attributes:mu==0"] += 1
+        markets = [{"spot": enc_flt(spot[p_].tolist()), "variance": enc_flt((vol[p_] * vol[p_]).tolist()), "volatility": enc_flt(vol[p_].tolist()),
+                    "listed": enc_flt(spot[p_].tolist()), "dt": float_bits(float(u.dt)), "strike": float_bits(K), "oracle": enc_flt([0.0] * T)}
+                   for p_ in range(N)]
+        names = [n_ for n_ in STATE_NAMES if pd or n_ != "max_log_moneyness"]
+        for how in ("BlackScholes", "from_derivative"):
+            st, mod, _ = call_impl(build_module, how, option, d)
+            if st != "ok":
+                ctx.fail("building the pricing module from a derivative raised", case0 | {"built": how}, key=f"bs_module:{option}:construct:error", detail=mod)
+                continue
+            calls = [("price", {}), ("delta", {})]
+            # a proper, non-empty subset of the inputs given explicitly (inside the box; running maximum >= spot)
+            given = sorted(g.r.sample(names, g.randint(1, len(names) - 1)))
+            ov = {}
+            if "time_to_maturity" in given:
+                ov["time_to_maturity"] = shaped(N, T, "full", 0.01, 5.0)
+            if "volatility" in given:
+                ov["volatility"] = shaped(N, T, "full", 0.02, 2.0)
+            if "log_moneyness" in given:
+                ov["log_moneyness"] = (state["max_log_moneyness"] - shaped(N, T, "full", 0.0, 0.5)) if pd and "max_log_moneyness" not in given \
+                    else shaped(N, T, "full", -1.0, 1.0)
+            if "max_log_moneyness" in given:
+                ov["max_log_moneyness"] = (ov["log_moneyness"] if "log_moneyness" in given else state["log_moneyness"]) + shaped(N, T, "full", 0.0, 0.6)
+            calls.append((g.choice(["price", "price", "delta"]), ov))
+            for what, ov_ in calls:
+                case = case0 | {"built": how, "method": what, "given": {k_: v_.tolist() for k_, v_ in ov_.items()}}
+                ctx.case(case, True, tag="module_attributes")
+                ctx.traces += 1
+                st, got, mut = call_impl(getattr(mod, what), watch=[("derivative", d)], **ov_)
+                if mut:
+                    ctx.mutated(f"BSModule.{what}", mut, case)
+                if how == how_tie:
+                    rst, rres, _ = call_impl(acquire_fn(pd), derivative=getattr(mod, "derivative", None), **ov_)
+                    tie.add(case, option, what, "from_derivative", N, T, markets, {"call": call, "simulated": True, "has_vol": True}, None, ov_,
+                            ("ok", getattr(mod, "call", None), getattr(mod, "strike", float("nan"))), (rst, rres), (st, got))
+                if st != "ok":
+                    ctx.fail(f"module.{what}() of a module built from a derivative on an underlier with non-default attributes raised", case,
+                             key=f"bs_module:{option}:underlier-attributes:error", detail=got)
+                    continue
+                st_ = state | ov_
+                exp = functional_at(torch, option, what, st_, K, call)
+                ok_ = torch.broadcast_to((st_["time_to_maturity"] > 0) & (st_["volatility"] > 0), (N, T))
+                compare_grid(ctx, got, exp, ok_, case, f"bs_module:{option}:underlier-attributes:{'partial-override' if ov_ else what}",
+                             f"module.{what}() of a module built from a derivative whose underlier was constructed with non-default attributes "
+                             f"(drift mu = {drift}, cost, dt, jump / mean-reversion parameters) differs from the functional form at the "
+                             + ("given inputs and the remaining simulated state" if ov_ else "simulated state (spot, running maximum, remaining steps * dt, volatility)")
+                             + ": an attribute that does not enter the zero-rate risk-neutral expectation enters the quote")
+                # the defining expectation at the first step (no history: running maximum = spot), from the state formed here
+                if what == "price" and not ov_ and how == how_tie and tuple(got.shape) == (N, T) and bool(valid[0, 0]) \
+                        and float(state["time_to_maturity"][0, 0]) <= 3.0 and float(vol[0, 0]) >= 0.05 and (not pd or n_pd_or > 0):
+                    s0, t0, v0 = float(state["log_moneyness"][0, 0]), float(state["time_to_maturity"][0, 0]), float(vol[0, 0])
+                    try:
+                        if option == "EuropeanOption":
+                            exp0 = expectation_terminal((lambda S: max(S - K, 0.0)) if call else (lambda S: max(K - S, 0.0)), s0, t0, v0, K)
+                        elif option == "EuropeanBinaryOption":
+                            exp0 = expectation_terminal((lambda S: 1.0 if S >= K else 0.0) if call else (lambda S: 1.0 if S <= K else 0.0), s0, t0, v0, K)
+                        elif option == "AmericanBinaryOption":
+                            n_pd_or -= 1
+                            exp0 = 1.0 if s0 >= 0 else expectation_pathdep(lambda ST, M: 1.0 if M >= K else 0.0, s0, s0, t0, v0, K, kink=-s0 / v0)
+                        else:
+                            n_pd_or -= 1
+                            exp0 = expectation_pathdep(lambda ST, M: max(M - K, 0.0), s0, s0, t0, v0, K, kink=(max(s0, 0.0) - s0) / v0)
+                    except Exception as e:  # noqa
+                        raise InternalError("expectation oracle failed: " + repr(e))
+                    ctx.stats[f"oracle:attributes:{option}"] += 1
+                    if abs(float(got[0, 0]) - exp0) > 2e-6 * max(1.0, K):
+                        ctx.fail("the price quoted by the module built from a derivative on an underlier with non-default attributes differs from the "
+                                 "numerically integrated zero-rate expected payoff at the simulated state", case | {"s": s0, "t": t0, "v": v0},
+                                 key=f"bs_module:{option}:underlier-attributes:expectation", detail={"module": float(got[0, 0]), "integral": exp0})
     try:
         mv3 = model_vals(ctx, items3)
     except DriverBroken as e:
@@ -765,7 +895,10 @@ def check(ctx):
         rule="prices over log-moneyness [-1,1] x t (0,5] x v (0,2] x K (0.1,10], running max >= spot incl. equality and exactly at the strike, "
              "float64/float32, broadcast shapes; BS modules from derivatives on injected markets (all inputs from the derivative; a proper subset given explicitly in "
              "full / column / row / scalar shapes; the same stock, derivative and module over three simulations with changed sigma / paths; put derivatives of "
-             "all four option types through BlackScholes and from_derivative); the resolution layer against its model (op bs_module: partial overrides, modules "
+             "all four option types through BlackScholes and from_derivative; underliers CONSTRUCTED with non-default attributes that do not enter the price — drift mu != 0 "
+             "(BrownianStock / MertonJumpStock / KouJumpStock / a user-defined BrownianStock subclass with other defaults), cost, dt, jump parameters, Heston kappa / theta / "
+             "sigma / rho — really simulated, every option type x drifted primary on every tier, priced without inputs and with a proper subset given, price and delta, "
+             "against the functional form at the simulated state, the integrated expected payoff at the first step and the model of the resolution layer); the resolution layer against its model (op bs_module: partial overrides, modules "
              "without a derivative, unsimulated underliers, underliers without volatility / without spot, puts, unexpected keyword: resolved tuple, value and "
              "error kind per (path, step)); numerical-integration oracle on a subsample; "
              "every case non-trivial; distinct = sha1 of canonical case",
